@@ -287,9 +287,69 @@ def _check_population_spelling(r2, r3, lib, SET, presence):
     return n_blocks
 
 
+def check_uuid_import(report, lib: Lib):
+    """C18.4 (seed C18e): the module-level `import uuid` that the population block relies on is emitted whenever SOME method is
+    auto-populated - its guards may be aggregate facts (API- or service-wide) or a per-method fact, but never a loop POSITION
+    (loop.first / loop.last / loop.index): then it would depend on where the auto-populated method is declared."""
+    import os
+    r = report.rule("C18.4", "`import uuid` is not conditioned on the position of a method in a loop", floor=2)
+    from ..skq import where
+    seen = 0
+    for tname in (SVC + "client.py.j2", SVC + "async_client.py.j2"):
+        for sk in lib.variants(tname, transport=("grpc", "rest")):
+            for n in ast.walk(sk.tree()):
+                if isinstance(n, ast.Import) and any(a.name == "uuid" for a in n.names):
+                    seen += 1
+                    gs = [g for g in sk.seg_of_node(n).guards]
+                    if os.environ.get("VERIF_DEBUG_C18"):
+                        print("C18.4", tname[-20:], gs)
+                    pos = [g for g in gs if any(k in str(g) for k in ("loop.first", "loop.last", "loop.index", "loop.revindex", "loop.length"))]
+                    r.instance({"template": tname.rsplit("/", 1)[-1], "guards": [str(g)[:90] for g in gs]})
+                    r.check(not pos, *where(sk, n, lib.root), f"import uuid guarded by {pos}",
+                            "a method whose auto-populated field is declared elsewhere in the loop gets `uuid.uuid4()` without the import: "
+                            "NameError at call time instead of a fresh UUID4")
+    r.need(seen >= 2, "`import uuid` in client.py.j2 and async_client.py.j2 skeletons", str(seen))
+    # the abstract renderer folds loop.first to a constant for a one-element loop, so the position test is read off the Jinja AST:
+    # every `if` enclosing the `import uuid` text must be free of loop-position attributes
+    import jinja2
+    from jinja2 import nodes as jn
+    env = jinja2.Environment(extensions=["jinja2.ext.do"], trim_blocks=True, lstrip_blocks=True)
+    found = 0
+    for tname in (SVC + "client.py.j2", SVC + "async_client.py.j2"):
+        path = os.path.join(lib.root, tname)
+        tree = env.parse(open(path).read())
+
+        def walk(node, tests):
+            nonlocal found
+            if isinstance(node, jn.TemplateData) and "import uuid" in node.data:
+                found += 1
+                pos = [t for t in tests for g in t.find_all(jn.Getattr)
+                       if isinstance(g.node, jn.Name) and g.node.name == "loop"
+                       and g.attr in ("first", "last", "index", "index0", "revindex", "revindex0", "length")]
+                r.instance({"template": tname.rsplit("/", 1)[-1], "enclosing_ifs": len(tests)})
+                r.check(not pos, path, node.lineno, f"`import uuid` under a test of loop.{'/'.join(sorted({g.attr for t in pos for g in t.find_all(jn.Getattr) if isinstance(g.node, jn.Name) and g.node.name == 'loop'}))}",
+                        "the import depends on WHERE the auto-populated method is declared: a later method gets `uuid.uuid4()` without "
+                        "the import - NameError at call time instead of a fresh UUID4")
+                return
+            if isinstance(node, jn.If):
+                for c in node.body:
+                    walk(c, tests + [node.test])
+                for e in node.elif_:
+                    walk(e, tests)
+                for c in node.else_:
+                    walk(c, tests)
+                return
+            for c in node.iter_child_nodes():
+                walk(c, tests)
+        walk(tree, [])
+    r.need(found >= 2, "`import uuid` text in client.py.j2 and async_client.py.j2", str(found))
+
+
 def run(report: core.Report):
     report.explanation = ("Branch-by-branch pattern rules on the validation function, shape and dominance rules on the population block that "
                           "auto_populate_uuid4_fields inlines into every client method (forced variants for both presence kinds).")
     report.assumptions.append("uuid.uuid4() yields RFC-4122 version-4 UUIDs; proto-plus `in` reports explicit presence")
     check_validation(report)
-    check_population(report, Lib())
+    lib = Lib()
+    check_population(report, lib)
+    check_uuid_import(report, lib)
